@@ -165,6 +165,53 @@ class Index:
 
         text, _, nth = contract.region["anchor"].partition("#")
         nth = int(nth) if nth else 0
+        if text.startswith("calls:"):
+            # semantic anchor: the statement containing a call of attribute/function `<name>` (n-th such statement),
+            # widened to the innermost enclosing for/while loop ("widen": "loop", the default; the loop may enclose the
+            # call through `if`/`try` statements) or left as the single statement ("widen": "stmt")
+            callee = text[len("calls:"):].strip()
+            widen = contract.region.get("widen", "loop")
+            hits = []
+
+            def has_call(st):
+                for sub in ast.walk(st):
+                    if isinstance(sub, ast.Call):
+                        fnn = sub.func
+                        if (isinstance(fnn, ast.Attribute) and fnn.attr == callee) or (isinstance(fnn, ast.Name) and fnn.id == callee):
+                            return True
+                return False
+
+            def walk_c(body, loop):
+                for i, st in enumerate(body):
+                    subs = []
+                    for fld in ("body", "orelse", "finalbody"):
+                        sub = getattr(st, fld, None)
+                        if isinstance(sub, list):
+                            subs.append(sub)
+                    for h in getattr(st, "handlers", []) or []:
+                        subs.append(h.body)
+                    if not subs:
+                        if has_call(st):
+                            hits.append(loop if (widen == "loop" and loop is not None) else (body, i))
+                        continue
+                    # a call in the header expression of a compound statement (loop iterable / condition)
+                    hdr = [getattr(st, a) for a in ("test", "iter") if getattr(st, a, None) is not None]
+                    if any(has_call(h) for h in hdr):
+                        hits.append((body, i) if isinstance(st, (ast.For, ast.While)) or loop is None or widen != "loop" else loop)
+                    nl = (body, i) if isinstance(st, (ast.For, ast.While)) else loop
+                    for sub in subs:
+                        walk_c(sub, nl)
+
+            walk_c(fn.body, None)
+            uniq = []
+            for b, i in hits:
+                if not any(b is b2 and i == i2 for b2, i2 in uniq):
+                    uniq.append((b, i))
+            if nth >= len(uniq):
+                raise KeyError("no statement of %s calls %s" % (fname, callee))
+            body, i = uniq[nth]
+            stmts = body[i : i + int(contract.region.get("span", 1))]
+            return self._region_fn(m, cls, f, label, contract, stmts)
         if text.startswith("writes:"):
             # semantic anchor, robust against the syntactic shape of the code: the statement that assigns the attribute
             # `<attr>` (n-th such statement), widened to the outermost chain of enclosing `if` statements
